@@ -19,7 +19,7 @@ RULE = (
 ASSUMPTIONS = [
     "TypeError / refusal exceptions are told apart from internal errors by the innermost frame "
     "being an explicit `raise` statement inside ptera (assert statements never count)",
-    "termination is checked with a 20 s alarm per batch of 2000 strings",
+    "termination: a 60 s alarm re-armed every 200 strings; when it fires the current string is re-run alone under a 300 s alarm before non-termination is reported",
 ]
 BOUNDS = {
     "quick": {"full_alphabet_N": 3, "core_alphabet_N": 4, "edit_distance": 1, "value_context_N": 4, "value_core_N": "6 (7 thorough) inside g( .. )"},
@@ -46,6 +46,7 @@ class K:
 
 obj = K()
 n = 3
+zero = 0
 '''
 
 
@@ -64,8 +65,10 @@ VALID_SEEDS = [
 
 INJECTIONS = {
     "unknown-meta": ["f > #foo", "f(#foo) > x", "f(x, !#bar)", "g(#nope, f(!z))", "f > #valuex", "f(#enter2) > x",
-                     "f > #exit_", "f > #Value", "f(#errors) > x", "f > #yield1", "f > #receive_", "f > #val"],
-    "non-tag-category": ["f > x:n", "f > x:1", "f > $v:n", "f(x:K) > z", "f:n > x"],
+                     "f > #exit_", "f > #Value", "f(#errors) > x", "f > #yield1", "f > #receive_", "f > #val",
+                     "f > #value.real", "f(#enter.x) > x", "g > f > #error.args", "f > #exit.code"],
+    "non-tag-category": ["f > x:n", "f > x:1", "f > $v:n", "f(x:K) > z", "f:n > x",
+                         "f:0 > x", "g > f:0 > z", "f:'' > x", "f > $v:0", "f(x:0) > z", "f:zero > x"],
     "unresolvable-function": ["nope > x", "g > nope > x", "nope(x) > y", "g(nope(!x))"],
     "second-focus-without-first": ["f(!!x)", "f(x, !!z)", "g(f(!!z))", "g(!!x, f(z))"],
     "unknown-variable": ["f > nope", "f(nope) > x", "g(x, f(!q))"],
@@ -110,7 +113,8 @@ def valid_selectors(tier):
         try:
             from pv.gen import selgen
 
-            sels += selgen.c18_seed_selectors(tier)
+            gen = selgen.c18_seed_selectors(tier)
+            sels += gen if tier == "thorough" else gen[::3]
         except ImportError:
             pass
         seen, out = set(), []
@@ -194,6 +198,8 @@ def check_text(text, env, part, seen, deep=True):
         try:
             p = cls(text, env=env2)
         except BaseException as e:
+            if isinstance(e, _Timeout):
+                raise
             c = S.classify_exception(e, "probe", text)
             part["outcomes"]["create:" + type(e).__name__] += 1
             if c:
@@ -202,6 +208,9 @@ def check_text(text, env, part, seen, deep=True):
         try:
             p.__enter__()
         except BaseException as e:
+            if isinstance(e, _Timeout):
+                world.reset_context()
+                raise
             c = S.classify_exception(e, "probe", text)
             part["outcomes"]["activate:" + type(e).__name__] += 1
             if c:
@@ -212,6 +221,9 @@ def check_text(text, env, part, seen, deep=True):
         try:
             p.__exit__(None, None, None)
         except BaseException as e:
+            if isinstance(e, _Timeout):
+                world.reset_context()
+                raise
             bad("internal:" + type(e).__name__, "deactivate", "deactivate", f"deactivation of {text!r}: {e!r}", ov)
             world.reset_context()
     return
@@ -269,22 +281,38 @@ def work(unit, tier):
     current = [None]
 
     def batch(texts, deep=True):
+        """Watchdog: an alarm is re-armed every 200 strings; if it fires, the string being processed
+        is re-run alone under a generous alarm before non-termination is reported (a loaded machine
+        must not look like a hang)."""
+        it = iter(texts)
         n = 0
-        signal.alarm(20)
-        try:
-            for t in texts:
-                current[0] = t
-                check_text(t, env, part, seen, deep=deep)
-                n += 1
-                if n % 2000 == 0:
-                    signal.alarm(20)
-        except _Timeout:
-            part["violations"].append(
-                violation(PROP, "non-termination", {"text": current[0], "stage": "parse"},
-                          "no result within the watchdog", tags=["symptom:non-termination"])
-            )
-        finally:
-            signal.alarm(0)
+        while True:
+            signal.alarm(60)
+            try:
+                for t in it:
+                    current[0] = t
+                    check_text(t, env, part, seen, deep=deep)
+                    n += 1
+                    if n % 200 == 0:
+                        signal.alarm(60)
+                signal.alarm(0)
+                return
+            except _Timeout:
+                signal.alarm(0)
+                suspect = current[0]
+                seen.discard(suspect)
+                signal.alarm(300)
+                try:
+                    check_text(suspect, env, part, seen, deep=deep)
+                    signal.alarm(0)
+                    part["counters"]["watchdog-false-alarms"] += 1
+                except _Timeout:
+                    signal.alarm(0)
+                    part["violations"].append(
+                        violation(PROP, "non-termination", {"text": suspect, "stage": "parse"},
+                                  "no result within 300 s for a single string", tags=["symptom:non-termination"]))
+            finally:
+                signal.alarm(0)
 
     if kind == "strings":
         _, alpha, prefix, n = unit
